@@ -1,5 +1,5 @@
 """C06 — tasks run exactly once before the loop sleeps and cannot starve polling."""
-from ..core import (AnalysisBroken, Inliner, canon, strip, last_member, must_pass, relpath, norm_cond, walk, forward)
+from ..core import (names_of, same_value, AnalysisBroken, Inliner, canon, strip, last_member, must_pass, relpath, norm_cond, walk, forward)
 from ..analyses import (is_call, holding, path_to, describe, exits_of, callback_kind, loops, innermost_loop,
                         must_pass_from_block, list_empty_test)
 from . import c01, c18
